@@ -191,8 +191,12 @@ CLAIMED["C16"] = dict(
          "mismatching energy grids or smoothers refused; EnergyResult.transform hands its own rank and declared TR/inversion transforms "
          "(right slots) to the real PointSymmetry.transform_tensor and distributes over + for a symbolic operation; ResultDict key-wise. "
          "K__Result: + is concatenation along k (the structure its callers use), add/-/* element-wise, and '/' returns an unscaled copy "
-         "-- recorded as the coded semantics, not claimed as scaling. Per shape, for all real data. Bounded stand-in: EnergyResult.save -> "
-         "from_npz on real files reproduces energies, data, rank, both transformations (incl. conj, swap_axes, transpose) and comment.",
+         "-- recorded as the coded semantics, not claimed as scaling. Persistence: the extracted Result.save / EnergyResult.as_dict / from_npz / "
+         "Transform.as_dict / transform_from_dict run on SYMBOLIC data with the npz file replaced by its documented contract (every keyword comes "
+         "back as asarray(value) under its key): energies axis by axis, data element-wise, rank, each transformation under its own name, comment, "
+         "titles, file name, missing-file behaviour (3 shapes incl. three energy axes and fewer titles than axes). Per shape, for all real data. "
+         "Bounded stand-in: EnergyResult.save -> from_npz on real files (validates that npz contract on the installed numpy) reproduces energies, "
+         "data, rank, both transformations (incl. conj, swap_axes, transpose) and comment.",
     note=TB + "; np.savez / np.load value round trip; the property's 'element-wise' does not literally hold for K__Result.__add__ and __truediv__ (stated, see DESIGN 5/C16)")
 
 CLAIMED["C26"] = dict(
